@@ -47,6 +47,62 @@ type Plan struct {
 type selectionPlan struct {
 	parentType *Object
 	fields     []*fieldPlan
+
+	// fragmentGates holds the inclusion condition of every named
+	// fragment that was first spread under a variable-driven condition.
+	fragmentGates map[string]*fragmentGate
+}
+
+// fragmentGate decides whether the fields a named fragment contributed
+// to a selection are included in a request. A fragment is collected once,
+// at its first spread, but it contributes whenever any of its spreads is
+// included: a spread is included when its own condition holds and the
+// fragment it sits in (if any) is included itself.
+type fragmentGate struct {
+	always  bool
+	spreads []fragmentSpreadEdge
+}
+
+type fragmentSpreadEdge struct {
+	from *fragmentGate                     // gate of the enclosing fragment; nil at the selection's own level
+	cond func(map[string]interface{}) bool // the spread's condition inside its container; nil ⇒ unconditional
+}
+
+func (g *fragmentGate) add(from *fragmentGate, cond func(map[string]interface{}) bool) {
+	if g.always {
+		return
+	}
+	if from == nil && cond == nil {
+		g.always = true
+		g.spreads = nil
+		return
+	}
+	g.spreads = append(g.spreads, fragmentSpreadEdge{from: from, cond: cond})
+}
+
+func (g *fragmentGate) included(vars map[string]interface{}) bool {
+	return g.reachable(vars, map[*fragmentGate]bool{})
+}
+
+// reachable searches the spread graph backwards; seen keeps the search
+// linear in the number of spreads and terminates it on cyclic fragments.
+func (g *fragmentGate) reachable(vars map[string]interface{}, seen map[*fragmentGate]bool) bool {
+	if g.always {
+		return true
+	}
+	if seen[g] {
+		return false
+	}
+	seen[g] = true
+	for _, e := range g.spreads {
+		if e.cond != nil && !e.cond(vars) {
+			continue
+		}
+		if e.from == nil || e.from.reachable(vars, seen) {
+			return true
+		}
+	}
+	return false
 }
 
 // fieldPlan is one entry in a selectionPlan: enough to resolve, run,
@@ -189,7 +245,7 @@ func (p *Plan) planSelectionSet(parentType *Object, selectionSet *ast.SelectionS
 	}
 	sp := &selectionPlan{parentType: parentType}
 	keyed := map[string]int{}
-	p.collectInto(parentType, selectionSet, visitedFragmentNames, sp, keyed, nil)
+	p.collectInto(parentType, selectionSet, visitedFragmentNames, sp, keyed, nil, nil)
 	if len(sp.fields) == 0 {
 		return nil
 	}
@@ -262,7 +318,7 @@ func (p *Plan) planMergedSelectionsForType(parentType *Object, fieldASTs []*ast.
 		if i < len(astPredicates) {
 			occurrencePred = astPredicates[i]
 		}
-		p.collectInto(parentType, f.SelectionSet, visited, sp, keyed, occurrencePred)
+		p.collectInto(parentType, f.SelectionSet, visited, sp, keyed, occurrencePred, nil)
 	}
 	if len(sp.fields) == 0 {
 		return nil
@@ -286,10 +342,18 @@ func (p *Plan) planMergedSelectionsForType(parentType *Object, fieldASTs []*ast.
 // with each field's own predicate when a new fieldPlan is created so
 // that fragment-level gates are honored at execute time.
 //
+// container is the gate of the named fragment whose selections are being
+// collected (nil outside of conditionally spread fragments); parentPred
+// then only covers the conditions inside that fragment.
+//
 // keyed maps responseKey → index in sp.fields so repeat selections
 // of the same response key merge their fieldASTs (matches
 // collectFields's `fields[name] = append(fields[name], selection)`).
-func (p *Plan) collectInto(parentType *Object, selectionSet *ast.SelectionSet, visitedFragmentNames map[string]bool, sp *selectionPlan, keyed map[string]int, parentPred func(map[string]interface{}) bool) {
+func (p *Plan) collectInto(parentType *Object, selectionSet *ast.SelectionSet, visitedFragmentNames map[string]bool, sp *selectionPlan, keyed map[string]int, parentPred func(map[string]interface{}) bool, container *fragmentGate) {
+	var containerPred func(map[string]interface{}) bool
+	if container != nil {
+		containerPred = container.included
+	}
 	for _, iSelection := range selectionSet.Selections {
 		switch sel := iSelection.(type) {
 		case *ast.Field:
@@ -308,7 +372,7 @@ func (p *Plan) collectInto(parentType *Object, selectionSet *ast.SelectionSet, v
 				// validation rules guarantee mergeable selections refer
 				// to the same field).
 				merged := sp.fields[idx]
-				occurrencePred := andPredicates(parentPred, pred)
+				occurrencePred := andPredicates(containerPred, andPredicates(parentPred, pred))
 				merged.fieldASTs = append(merged.fieldASTs, sel)
 				merged.astPredicates = append(merged.astPredicates, occurrencePred)
 				// The response key is present when any of its occurrences is included.
@@ -325,7 +389,7 @@ func (p *Plan) collectInto(parentType *Object, selectionSet *ast.SelectionSet, v
 				// fieldDef so ExecutePlan can mirror the
 				// hasNoFieldDefs branch (skip the response key).
 			}
-			occurrencePred := andPredicates(parentPred, pred)
+			occurrencePred := andPredicates(containerPred, andPredicates(parentPred, pred))
 			fp := &fieldPlan{
 				responseKey:   responseKey,
 				fieldName:     fieldName,
@@ -350,7 +414,7 @@ func (p *Plan) collectInto(parentType *Object, selectionSet *ast.SelectionSet, v
 				continue
 			}
 			if sel.SelectionSet != nil {
-				p.collectInto(parentType, sel.SelectionSet, visitedFragmentNames, sp, keyed, andPredicates(parentPred, pred))
+				p.collectInto(parentType, sel.SelectionSet, visitedFragmentNames, sp, keyed, andPredicates(parentPred, pred), container)
 			}
 
 		case *ast.FragmentSpread:
@@ -362,7 +426,13 @@ func (p *Plan) collectInto(parentType *Object, selectionSet *ast.SelectionSet, v
 			if sel.Name != nil {
 				fragName = sel.Name.Value
 			}
+			spreadPred := andPredicates(parentPred, pred)
 			if visitedFragmentNames[fragName] {
+				// Already collected: this spread can only make the
+				// fragment's fields included in more requests.
+				if gate := sp.fragmentGates[fragName]; gate != nil {
+					gate.add(container, spreadPred)
+				}
 				continue
 			}
 			frag, ok := p.fragments[fragName]
@@ -378,7 +448,16 @@ func (p *Plan) collectInto(parentType *Object, selectionSet *ast.SelectionSet, v
 				continue
 			}
 			if fragDef.GetSelectionSet() != nil {
-				p.collectInto(parentType, fragDef.GetSelectionSet(), visitedFragmentNames, sp, keyed, andPredicates(parentPred, pred))
+				var gate *fragmentGate
+				if container != nil || spreadPred != nil {
+					gate = &fragmentGate{}
+					gate.add(container, spreadPred)
+					if sp.fragmentGates == nil {
+						sp.fragmentGates = map[string]*fragmentGate{}
+					}
+					sp.fragmentGates[fragName] = gate
+				}
+				p.collectInto(parentType, fragDef.GetSelectionSet(), visitedFragmentNames, sp, keyed, nil, gate)
 			}
 		}
 	}
